@@ -145,12 +145,12 @@ class C13(Prop):
         open(os.path.join(mod, "m_test.go"), "w").write(BB_TEST)
         env = {k: v for k, v in GOENV.items() if k not in ("NO_COLOR", "_", "CI", "UPDATE_SNAPS")}
         binp = os.path.join(workdir, "bbcolor.test")
-        p = subprocess.run(["go", "test", "-c", "-vet=off", "-o", binp, "."], cwd=mod, env=env, stdout=subprocess.PIPE, stderr=subprocess.STDOUT, text=True, errors="replace")
+        p = subprocess.run(["go", "test", "-c", "-vet=off", "-o", binp, "."], cwd=mod, env=env, stdout=subprocess.PIPE, stderr=subprocess.STDOUT, text=True, errors="replace", timeout=900)
         if p.returncode != 0:
             return [{"msg": "black-box build failed: " + p.stdout[-800:]}], {}
         snapdir = os.path.join(mod, "__snapshots__")
         shutil.rmtree(snapdir, ignore_errors=True)
-        run = lambda e: subprocess.run([binp, "-test.count=1", "-test.v"], cwd=mod, env=dict(env, **e), stdout=subprocess.PIPE, stderr=subprocess.STDOUT, text=True, errors="replace")
+        run = lambda e: subprocess.run([binp, "-test.count=1", "-test.v"], cwd=mod, env=dict(env, **e), stdout=subprocess.PIPE, stderr=subprocess.STDOUT, text=True, errors="replace", timeout=900)
         run({"BB_VALUE": "line one\nline two", "BB_GONE": "1", "NO_COLOR": "1"})
         fails = []
         for nc in ("1", "", "0"):
